@@ -368,7 +368,9 @@ def check(run: Run) -> None:
     with run.obligation("C18.g", "K1", "the graph side of a wake-up request: a request for an earlier future time replaces the node's slot AND lowers the graph's "
                         "next cycle, so the executor visits that time (shared with C02.a)"):
         sub = Run("C18", run.tier, run.tree, quiet=True)
-        c02.check(sub)
+        sub.is_sub = True
+        if not getattr(run, "is_sub", False):
+            c02.check(sub)
         run.evaluations += sub.evaluations
         run.count(1, "C18.g")
         for f in sub.findings:
